@@ -4,7 +4,6 @@ from typing import Any
 class Cfg:
     tp: list | type
     default: Any
-    value: Any
     docs: str
     name: str
 
@@ -12,7 +11,6 @@ class Cfg:
         self.tp = tp
         self.default = default
         self.docs = docs
-        self.value = default
 
     def __set_name__(self, owner, name):
         self.name = name
@@ -28,10 +26,13 @@ class Cfg:
         else:
             if not isinstance(value, self.tp):
                 raise ValueError(f"Invalid value of config '{self.name}'")
-        self.value = value
+        # the value belongs to the Configs object, not to the shared descriptor
+        instance.__dict__[self.name] = value
 
     def __get__(self, instance, owner=None):
-        return self.value
+        if instance is None:
+            return self.default
+        return instance.__dict__.get(self.name, self.default)
 
 
 class Configs:
